@@ -459,7 +459,32 @@ def fam_nesty():
             tok("start", "custom-x"), tok("end", "custom-x"), tok("start", "object"), tok("end", "object"), tok("text", d="<i a=1>t&<x")]
     return dict(name="nesty", recipes=recipes, tokens=toks, wellnested=True)
 
-FAMS = dict(nesty=fam_nesty, urldup=fam_urldup, nestx=fam_nestx, nestw=fam_nestw, nest=fam_nest, css=fam_css, conc_zero=fam_conc_zero, conc=fam_conc, io=fam_io, policy=fam_policy, ugc=fam_ugc, conf=fam_conf, loop=fam_loop, loopq=fam_loopq, link=fam_link, url=fam_url, forced=fam_forced, allow=fam_allow, style=fam_style)
+def fam_refine():
+    """The nine-name universe of SanInd.tla as a concrete family: MC_Refine.tla checks that the typed abstract loop that Apalache
+    proves inductive simulates BM_Sanitize step by step (so the unbounded result transfers to the trace-validated specification)."""
+    names = ["b", "a", "img", "frame", "cx", "blink", "object", "script", "style"]
+    good = {"a": ("href", "/x"), "img": ("src", "/i"), "frame": ("src", "/f"), "script": ("type", "t"), "style": ("type", "t")}
+    r1 = [call("NewPolicy"), call("AllowElements", names=["b"]), AA(["href"], ["a"]), AA(["src"], ["img"]),
+          AA(["class"], pat="^cx$", noattrs=True)]
+    recipes = [
+        r1,
+        r1 + [call("AddSpaceWhenStrippingTag", b=True), call("AllowComments"), call("SkipElementsContent", names=["cx", "b"])],
+        r1 + [call("AllowUnsafe", b=True), AA(["type"], ["script"]), call("AllowElements", names=["style"])],
+        r1 + [call("AllowElementsContent", names=["script", "style", "object"]), AA(["type"], ["script"], noattrs=True)],
+        [call("NewPolicy"), call("AllowComments")],
+        [call("NewPolicy"), call("AllowElements", names=["blink", "frame", "object"]), AA(["class"], ["a", "img"]),
+         call("AllowUnsafe", b=True), call("AllowElementsContent", names=["object"]), AA(["class"], pat="^c")],
+    ]
+    toks = []
+    for n in names:
+        g = good.get(n, ("class", "k"))
+        for t in ("start", "self"):
+            toks += [tok(t, n), tok(t, n, (g,)), tok(t, n, (("onclick", "x"),))]
+        toks.append(tok("end", n))
+    toks += [tok("text", d="t"), tok("comment", d="c"), tok("doctype", d="html")]
+    return dict(name="refine", recipes=recipes, tokens=toks)
+
+FAMS = dict(refine=fam_refine, nesty=fam_nesty, urldup=fam_urldup, nestx=fam_nestx, nestw=fam_nestw, nest=fam_nest, css=fam_css, conc_zero=fam_conc_zero, conc=fam_conc, io=fam_io, policy=fam_policy, ugc=fam_ugc, conf=fam_conf, loop=fam_loop, loopq=fam_loopq, link=fam_link, url=fam_url, forced=fam_forced, allow=fam_allow, style=fam_style)
 
 if __name__ == "__main__":
     here = os.path.dirname(os.path.abspath(__file__))
